@@ -42,7 +42,7 @@ func Samples() []int {
 	run(0xAB70, 3, 11) // Cherokee
 	add(0x1E9E, 0x2126, 0x212A, 0x212B)
 	run(0x10400, 3, 13)
-	run(0x10428, 3, 13) // Deseret
+	run(0x10428, 3, 13)   // Deseret
 	add(0x1E900, 0x1E922) // Adlam
 	add(0x1D400, 0x1D41A) // mathematical bold A a (cased, no partner)
 	add(0xFF21, 0xFF41, 0xFF11)
@@ -676,6 +676,9 @@ func (g *Gen) xps() {
 			in := info{code: c, sh: up, text0: up, mods: kc.Shift}
 			add(c, kc.Shift, in, kc.Enc{K: "char", Cps: []int{up}}, ku(c, up, kc.Shift, []int{up}, 1|4|16),
 				ku(c, up, kc.Shift, nil, 1|4), ku(c, 0, kc.Shift, nil, 4), ku(c, 0, kc.Shift, []int{up}, 4|16))
+			// the same report with and without Num Lock (identical optional fields): the lock state must not change the chord
+			add(c, kc.Shift, info{code: c, mods: kc.Shift}, ku(c, 0, kc.Shift, nil, 4), ku(c, 0, kc.Shift|kc.Num, nil, 4))
+			add(c, kc.Shift, info{code: c, sh: up, mods: kc.Shift}, ku(c, up, kc.Shift, nil, 1|4), ku(c, up, kc.Shift|kc.Num, nil, 1|4))
 		}
 		if c < 48 || c > 126 || escIntro[c] {
 			continue
@@ -704,6 +707,8 @@ func (g *Gen) xps() {
 	add(13, kc.Alt, info{code: 13, mods: kc.Alt}, kc.Enc{K: "escc0", B: 13}, ku(13, 0, kc.Alt, nil, 4))
 	add(9, kc.Alt, info{code: 9, mods: kc.Alt}, kc.Enc{K: "escc0", B: 9}, ku(9, 0, kc.Alt, nil, 4))
 	add(32, 0, info{code: 32, text0: 32}, kc.Enc{K: "char", Cps: []int{32}}, ku(32, 0, 0, nil, 0), ku(32, 0, 0, []int{32}, 4|16))
+	// Shift+space without a text field (the work-around's motivating case), with and without Num Lock
+	add(32, kc.Shift, info{code: 32, mods: kc.Shift}, ku(32, 0, kc.Shift, nil, 4), ku(32, 0, kc.Shift|kc.Num, nil, 4))
 	// functional keys: SS3 / CSI letter / CSI ~ / kitty forms of the same key
 	fk := func(name string, mods int, encs ...kc.Enc) {
 		add(kc.FK(name), mods, info{code: kc.FK(name), mods: mods}, encs...)
